@@ -617,6 +617,22 @@ def _run_scanpairs(desc):
             elif any(not same(got2[k], want2[k]) for k in want2):
                 k = [k for k in want2 if not same(got2[k], want2[k])][0]
                 sh.violation("pairscans:overlaps-wrong", dict(case, pair=list(k)), {"got": got2[k], "expected": sorted(want2[k].items())})
+            # history on ONE scan object: labelled a second time in another way (labels counted through the whole scan instead of per
+            # frame), then asked again: the overlaps are those of the labelling the object carries NOW (= a fresh object labelled that way)
+            if idx % 3 == 0:
+                s1.cplabel(threshold=0, countall=True)
+                again = PR.pairrow(s1, 7)
+                fresh_ = sf.SparseScan(fn, "1.1")
+                fresh_.cplabel(threshold=0, countall=True)
+                ref_ = PR.pairrow(fresh_, 7)
+
+                def as_dict(ans):
+                    return (ans[0], None if ans[1] is None else sorted((int(a), int(b), int(n_)) for a, b, n_ in ans[1]))
+                if set(again) != set(ref_) or any(as_dict(again[k]) != as_dict(ref_[k]) for k in ref_):
+                    sh.violation("pairrow[scan labelled a second time]:overlaps-are-not-those-of-the-current-labels", dict(case, history=["cplabel(countall=False)", "pairrow", "cplabel(countall=True)", "pairrow"]),
+                                 {"got": {str(k): as_dict(v) for k, v in again.items()}, "expected": {str(k): as_dict(v) for k, v in ref_.items()}})
+                s1 = labelled(fn)
+                s1.sinorow = 7
             # a third row measured rotating BACKWARDS (zig-zag scans): its frames are stored with omega descending
             fn3 = os.path.join(wd, "c.h5")
             om3 = np.array([399.0, 380.0, 370.03])
